@@ -30,7 +30,13 @@ ReplayConstraint ==
     /\ NoTrailingEnv
     /\ nenv <= gen
     /\ (run.pc # "idle" => ~run.wantForced)
-ReplayInit == Init /\ viz = FALSE
+\* model checking and the ordinary replay families start from a project that has commands
+MCInit == Init /\ hasCmds = TRUE
+MCSpec == MCInit /\ [][Next]_vars
+ReplayInit == Init /\ hasCmds = TRUE /\ viz = FALSE
+\* ... and one family starts in a project WITHOUT commands and an output directory no generation has touched
+FreshInit == Init /\ hasCmds = FALSE /\ hasEvents = FALSE /\ viz = FALSE
+FreshSpec == FreshInit /\ [][Next]_vars
 ReplaySpec == ReplayInit /\ [][Next]_vars
 
 \* C17: fault plans.  A first run or a run after an output-changing edit is hit by exactly one
@@ -39,7 +45,7 @@ FaultConstraint ==
     /\ NoTrailingEnv
     /\ nenv <= gen
     /\ (run.pc # "idle" => ~run.wantForced)
-FaultInit == Init /\ hasEvents = TRUE
+FaultInit == Init /\ hasCmds = TRUE /\ hasEvents = TRUE
 FaultSpec == FaultInit /\ [][Next]_vars
 
 \* C14 force histories: an unforced generation, one cache-state manipulation, then a run with
@@ -52,5 +58,5 @@ ForceClasses == {"param_type"}
 FaultClasses == {"field_added"}
 
 \* print every maximal history once (always-true invariant) for replay into the real tool
-EmitHist == (Done /\ NoTrailingEnv) => PrintT(<<"REPLAY", ToJson([h |-> hist, ev |-> hasEvents, viz |-> viz])>>)
+EmitHist == (Done /\ NoTrailingEnv) => PrintT(<<"REPLAY", ToJson([h |-> hist, ev |-> hasEvents, viz |-> viz, cmds |-> hasCmds])>>)
 =============================================================================
